@@ -46,7 +46,7 @@ PWithKids(p, ks) ==
                             !.kw = [i \in 1..Len(p.kw) |->
                                       [p.kw[i] EXCEPT !.e = ks[1 + Len(p.args) + i]]]]
       [] p.t = "idx" -> [p EXCEPT !.a = ks[1], !.i = ks[2]]
-      [] p.t = "attr" -> [p EXCEPT !.a = ks[1]]
+      [] p.t \in {"attr", "attra"} -> [p EXCEPT !.a = ks[1]]
       [] OTHER -> p
 PFill(p, s) ==
     IF p.t = "hole" THEN s
@@ -85,7 +85,10 @@ Depth1 ==
          IdxP(Leaf(V("m")), Leaf(N("Tup", << KI(1) >>))), IdxP(Leaf(V("m")), Leaf(KI(1))),
          IdxP(Leaf(V("m")), Leaf(N("Tup", << KI(0), KI(1) >>))), IdxP(Leaf(V("m")), Leaf(N("Tup", << >>))),
          IdxP(Leaf(V("m")), Leaf(KI(2))),
-         AttrP(E, "p"), AttrP(Leaf(oo), "p"), AttrP(Leaf(oo), "q") }
+         AttrP(E, "p"), AttrP(Leaf(oo), "p"), AttrP(Leaf(oo), "q"),
+         \* the attribute spelling, also for names that pymbolic's own objects use
+         AttraP(E, "p"), AttraP(Leaf(oo), "q"), AttraP(Leaf(oo), "aggregate"), AttraP(Leaf(oo), "name"),
+         AttrP(Leaf(oo), "aggregate"), BinP("+", AttraP(Leaf(oo), "aggregate"), A) }
 \* depth 2: op2(op1(a, b), c) and op2(c, op1(a, b)) over the reduced kinds
 Inner == { BinP(op, Es, As) : op \in BinOps } \cup { BinP(op, Ns, Es) : op \in BinOps }
          \cup { UnP("-", Es) }
